@@ -31,3 +31,8 @@ CHECKS["C15"] = {"pkg": "crypto", "shards": 8,
     "technique": "exhaustive short-input enumeration plus property-based testing (rapid) against the big-integer definition of base58 and a reference address construction",
     "text": "All byte strings of length <=2 and all strings of length <=3 over a 70-symbol hostile alphabet are enumerated; longer inputs and mutated address texts are sampled. Oracle: math/big base58 in both directions, decode => canonical re-encode, address text decodes iff reference construction says so.",
     "note": "trusted: math/big, crypto/sha256; ripemd160 of public keys is not part of this property (addresses are generated from random 20-byte keys)"}
+
+CHECKS["C16"] = {"pkg": "crypto", "shards": 12,
+    "technique": "differential property-based testing (rapid) against a from-the-spec BIP39/BIP32/BIP44 reference built on the textbook curve, stdlib HMAC/PBKDF2 and x/crypto ripemd160",
+    "text": "Generated-input search with a differential oracle: mnemonic generation/validation/entropy recovery/seed derivation, master keys, hardened and normal child derivation to depth 5 with boundary child numbers, xprv/xpub serialisation, N(CKDpriv)==CKDpub(N) and BIP44 paths are compared value-for-value with the reference; invalid sizes, mutated sentences and corrupted encodings must be refused.",
+    "note": "ASCII-only sentences and passphrases (NFKD is the identity there); the English list is recovered through the API and pinned by the published SHA-256; IL>=n / zero-key branches are unreachable by sampling (2^-127)"}
